@@ -571,3 +571,38 @@ for _p, _r in (("C08", "R-C08-charge"), ("C02", "R-C02-stim")):
 B("C08", BASE, "        values = values if is_multiple else jnp.repeat(values, num_inserted, axis=0)", "        values = values if is_multiple else jnp.repeat(values, batch_size, axis=0)", "R-C08-rows")
 B("C08", BASE, "        is_multiple = num_inserted == batch_size\n        values", "        is_multiple = num_inserted <= batch_size\n        values", "R-C08-rows")
 B("C11", BASE, "            self._scope = scope\n            self._current_view = current_view", "            self._current_view = current_view", "R-C11-refresh")
+
+# ---- rules added with round 7
+# the diagonal handed on by a back-substituted level is 1 for every compartment of the level
+for _p, _r in (("C01", "R-C01-schedule"), ("C15", "R-C15-schedule")):
+    B(_p, SV, "    diags = diags.at[idx.branch(bil)].set(1.0)\n    return solves, lowers, diags", "    return solves, lowers, diags", _r)
+    B(_p, SV, "    diags = diags.at[idx.branch(bil)].set(1.0)\n    return solves, lowers, diags", "    diags = diags.at[idx.lower(bil)].set(1.0)\n    return solves, lowers, diags", _r)
+# what set_ncomp re-runs before the view state is refreshed does not read the view state
+B("C13", "jaxley/modules/branch.py", "        n_nodes, data_inds, indices, indptr = comp_edges_to_indices(self._comp_edges)", "        n_nodes, data_inds, indices, indptr = comp_edges_to_indices(\n            self._comp_edges, n_nodes=len(self._nodes_in_view)\n        )", "R-C13-initorder")
+P("C13", "jaxley/modules/branch.py", "        n_nodes, data_inds, indices, indptr = comp_edges_to_indices(self._comp_edges)", "        n_nodes, data_inds, indices, indptr = comp_edges_to_indices(\n            self._comp_edges, n_nodes=self.ncomp\n        )")
+# the edge table is grouped in the order it was handed in
+for _p, _r in (("C09", "R-C09-space"),):
+    B(_p, NW, "        states = self._step_synapse_state(states, syn_channels, params, delta_t, edges)", "        edges = edges.sort_values(\"type_ind\")\n        states = self._step_synapse_state(states, syn_channels, params, delta_t, edges)", _r)
+    B(_p, BASE, "                synapse_inds = self.base.edges.groupby(\"type\").rank()[\"global_edge_index\"]\n                synapse_inds = (synapse_inds.astype(int) - 1).to_numpy()\n                inds = synapse_inds[inds]\n                # We need to unsqueeze `set_param` to make it `(num_params, 1)` for the\n                # `.set()` to work. This is done with `[:, None]`.\n                # Groups of unequal size", "                inds = inds - self.base.edges[key].first_valid_index()\n                # We need to unsqueeze `set_param` to make it `(num_params, 1)` for the\n                # `.set()` to work. This is done with `[:, None]`.\n                # Groups of unequal size", _r)
+# trainables: nodes vs edges, for parameters AND states
+for _p, _r in (("C19", "R-C19-classify"), ("C10", "R-C10-classify")):
+    B(_p, BASE, "            elif pkey in self.base.edges.columns:\n                trainable_inds_in_view = np.intersect1d(inds, self._edges_in_view)", "            elif pkey in self.base.synapse_param_names:\n                trainable_inds_in_view = np.intersect1d(inds, self._edges_in_view)", _r)
+    P(_p, BASE, "            elif pkey in self.base.edges.columns:\n                trainable_inds_in_view = np.intersect1d(inds, self._edges_in_view)", "            else:\n                trainable_inds_in_view = np.intersect1d(inds, self._edges_in_view)")
+# lazy indexing: only a tuple is one index per level; editing methods run on the view
+for _p, _r in (("C11", "R-C11-filter"), ("C20", "R-C20-filter")):
+    B(_p, BASE, "        index = index if isinstance(index, tuple) else (index,)", "        index = tuple(index) if isinstance(index, (tuple, list)) else (index,)", _r)
+B("C11", BASE, "            self.compute_compartment_centers()", "            self.base.compute_compartment_centers()", "R-C11-confine")
+# forward Euler refuses every model its layout cannot hold; branch offsets are cumulative
+for _p, _r in (("C01", "R-C01-refuse"), ("C12", "R-C12-refuse")):
+    B(_p, SV, "    if len(np.unique(ncomp_per_branch)) > 1:", "    if nbranches * ncomp_per_branch[0] != len(voltages):", _r)
+    P(_p, SV, "    if len(np.unique(ncomp_per_branch)) > 1:", "    if np.any(ncomp_per_branch != ncomp_per_branch[0]):")
+# gradients: ties and data-dependent branches
+B("C05", CU, "    return rad1 * rad2**2 / (r_a1 * rad2**2 * l1 + r_a2 * rad1**2 * l2) / l1 * 10**7", "    cond = rad1 * rad2**2 / (r_a1 * rad2**2 * l1 + r_a2 * rad1**2 * l2) / l1 * 10**7\n    return jnp.where(rad1 == rad2, rad1 / (r_a1 * l1 + r_a2 * l2) / l1 * 10**7, cond)", "R-C05-block")
+# execution modes: the data-feeding API handles traced values; an exact factorisation is accepted
+B("C06", BASE, "                    \"val\": jnp.atleast_1d(jnp.asarray(val)),", "                    \"val\": np.atleast_1d(val),", "R-C06-taint")
+B("C06", IG, "            nsteps_to_return <= length", "            nsteps_to_return < length", "R-C06-scan")
+P("C06", IG, "            nsteps_to_return <= length", "            length >= nsteps_to_return")
+# a transformed function never hangs on an object
+B("C18", NW, "            synapse_currents = vmap(\n                synapse_type.compute_current, in_axes=(None, 0, 0, None)\n            )(", "            if not hasattr(synapse_type, \"_vm\"):\n                synapse_type._vm = vmap(\n                    synapse_type.compute_current, in_axes=(None, 0, 0, None)\n                )\n            synapse_currents = synapse_type._vm(", "R-C18-plain")
+# bounds are stored in the precision given
+B("C17", TF, "        self.lower = lower\n        self.width = upper - lower", "        lower = jnp.asarray(lower, dtype=jnp.float32)\n        upper = jnp.asarray(upper, dtype=jnp.float32)\n        self.lower = lower\n        self.width = upper - lower", "R-C17-bounds")
